@@ -185,6 +185,11 @@ where
             let trimmed = v.trim();
 
             match trimmed.strip_prefix('+') {
+                // At most one sign: what follows a leading `+` must be digits only
+                // (`str::parse` would accept another `+`).
+                Some(without) if without.starts_with('+') => {
+                    Err(E::custom("invalid digit found in string"))
+                }
                 Some(without) => without.parse::<UInt>().map(|u| u.into()).map_err(E::custom),
                 None => trimmed.parse().map_err(E::custom),
             }
